@@ -461,3 +461,149 @@ Proof.
         as [t' E]; try assumption; try lia.
       exists t'. rewrite E, !endlen_dec. reflexivity.
 Qed.
+
+(* the allocating route: rc 0, the WTF-8 form followed by NUL, exact length *)
+Theorem utf16_to_wtf8_alloc w len :
+  lenok len w -> Forall unit16 w ->
+  utf16_to_wtf8 w len (TAlloc true)
+  = (0%Z, wtf8_of w ++ [0], N.of_nat (length (wtf8_of w))).
+Proof.
+  intros HL HF. unfold utf16_to_wtf8. rewrite (utf16_length_exact w len HL HF).
+  set (L := N.of_nat (length (wtf8_of w))).
+  destruct (to_wtf8_loop_full L (S (length w)) w len 0 L [] HL HF ltac:(lia) ltac:(lia)) as [t' E].
+  rewrite E. rewrite N.eqb_refl. cbn [negb hd andb].
+  replace ((endlen len <? 0)%Z && true && (0 =? 0)) with (endlen len <? 0)%Z
+    by (destruct (endlen len <? 0)%Z; reflexivity).
+  assert (Z0 : (if (endlen len <? 0)%Z then 0%Z else endlen len) = 0%Z).
+  { unfold endlen. destruct HL as [->|[H _]].
+    - destruct (Z.ltb_spec 0 (Z.of_nat (length w))); [reflexivity|].
+      destruct (Z.ltb_spec (Z.of_nat (length w)) 0); lia.
+    - destruct (Z.ltb_spec 0 len); [lia|]. destruct (Z.ltb_spec len 0); [reflexivity|lia]. }
+  rewrite Z0. cbn [Z.eqb negb]. rewrite app_nil_r. cbn [rev]. rewrite rev_involutive. reflexivity.
+Qed.
+
+(* the length-only route *)
+Theorem utf16_to_wtf8_null w len :
+  lenok len w -> Forall unit16 w ->
+  utf16_to_wtf8 w len TNull = (0%Z, [], N.of_nat (length (wtf8_of w))).
+Proof. intros HL HF. unfold utf16_to_wtf8. rewrite (utf16_length_exact w len HL HF). reflexivity. Qed.
+
+(* ------------------------------------------------------------------ *)
+(* Round trip                                                          *)
+(* ------------------------------------------------------------------ *)
+Lemma nz16_unit16 w : Forall nz16 w -> Forall unit16 w.
+Proof. apply Forall_impl. intros a [_ H]. exact H. Qed.
+
+Lemma wtf8_of_fuel w : (length (cps_of w) < S (length (wtf8_of w)))%nat.
+Proof. pose proof (enc_length_ge (cps_of w)). unfold wtf8_of. lia. Qed.
+
+Theorem wtf8_length_of_encoding w :
+  Forall nz16 w -> wtf8_length_as_utf16 (wtf8_of w) = Some (N.of_nat (length w) + 1).
+Proof.
+  intros HF. unfold wtf8_length_as_utf16, wtf8_of.
+  rewrite length_loop_enc; [|apply cps_of_ok; exact HF|apply wtf8_of_fuel].
+  rewrite units_of_cps_of by (apply nz16_unit16; exact HF). f_equal.
+Qed.
+
+Theorem wtf8_to_utf16_of_encoding w :
+  Forall nz16 w -> fst (wtf8_to_utf16 (wtf8_of w)) = w ++ [0].
+Proof.
+  intros HF. unfold wtf8_to_utf16, wtf8_of.
+  rewrite to_utf16_loop_enc; [|apply cps_of_ok; exact HF|apply wtf8_of_fuel].
+  cbn [fst rev app]. rewrite units_of_cps_of by (apply nz16_unit16; exact HF). reflexivity.
+Qed.
+
+(* C18_utf16_wtf8_roundtrip: for every sequence of non-zero 16-bit units,
+   given counted or NUL-terminated, uv_utf16_to_wtf8 succeeds and produces a
+   NUL-terminated string t (of exactly the announced length) on which
+   uv_wtf8_length_as_utf16 announces |w|+1 units and uv_wtf8_to_utf16 stores
+   w followed by the terminator. *)
+Theorem utf16_wtf8_roundtrip w len :
+  Forall nz16 w -> (len = Z.of_nat (length w) \/ (len < 0)%Z) ->
+  exists t,
+    utf16_to_wtf8 w len (TAlloc true) = (0%Z, t ++ [0], N.of_nat (length t)) /\
+    ~ In 0 t /\
+    wtf8_length_as_utf16 t = Some (N.of_nat (length w) + 1) /\
+    fst (wtf8_to_utf16 t) = w ++ [0].
+Proof.
+  intros HF Hlen. exists (wtf8_of w).
+  assert (HL : lenok len w) by (destruct Hlen as [H|H]; [left; exact H|right; split; assumption]).
+  split; [apply utf16_to_wtf8_alloc; [exact HL|apply nz16_unit16; exact HF]|].
+  split; [|split; [apply wtf8_length_of_encoding; exact HF|apply wtf8_to_utf16_of_encoding; exact HF]].
+  (* no NUL byte inside: every byte of the encoding of a non-zero code point is non-zero *)
+  unfold wtf8_of. intros Hin. apply in_flat_map in Hin. destruct Hin as (cp & Hcp & Hb).
+  pose proof (cps_of_ok w HF) as Hok. rewrite Forall_forall in Hok. destruct (Hok cp Hcp) as [H0 H1].
+  revert Hb. unfold enc_cp.
+  destruct (N.ltb_spec cp 128); [|destruct (N.ltb_spec cp 2048); [|destruct (N.ltb_spec cp 65536)]];
+    cbn [In]; intros Hb; repeat (destruct Hb as [Hb|Hb]; [lia|]); exact Hb.
+Qed.
+
+(* ------------------------------------------------------------------ *)
+(* Lengths on the WTF-8 side, for every byte string                    *)
+(* ------------------------------------------------------------------ *)
+Lemma wtf8_loops_agree : forall fuel s acc out ok n,
+  wtf8_length_loop fuel s acc = Some n ->
+  exists us ok', wtf8_to_utf16_loop fuel s out ok = (rev out ++ us, ok') /\
+                 acc + N.of_nat (length us) = n.
+Proof.
+  induction fuel as [|f IH]; intros s acc out ok n H.
+  - cbn in *. exists [], ok. rewrite app_nil_r. split; [reflexivity|]. inversion H. cbn. lia.
+  - cbn [wtf8_length_loop wtf8_to_utf16_loop] in *.
+    destruct (wtf8_decode1 s) as [[cp|] s'] eqn:E; [|discriminate].
+    destruct (hd 0 s' =? 0) eqn:Eh.
+    + inversion H; subst. destruct (65535 <? cp).
+      * eexists [_; _], _. split; [cbn [rev]; rewrite <- !app_assoc; reflexivity|]. cbn [length]. lia.
+      * eexists [_], _. split; [cbn [rev]; reflexivity|]. cbn [length]. lia.
+    + destruct (65535 <? cp).
+      * destruct (IH (tl s') (acc + 1 + 1)
+                    ((N.land (cp - 65536) 1023 + 56320) :: (N.shiftr (cp - 65536) 10 + 55296) :: out)
+                    (ok && ((cp <=? 65535) || (cp <? 1114111))) n H)
+          as (us & ok' & E1 & E2).
+        eexists (_ :: _ :: us), ok'. split.
+        -- rewrite E1. cbn [rev]. rewrite <- !app_assoc. reflexivity.
+        -- cbn [length]. lia.
+      * destruct (IH (tl s') (acc + 1) (cp :: out)
+                    (ok && ((cp <=? 65535) || (cp <? 1114111))) n H)
+          as (us & ok' & E1 & E2).
+        eexists (_ :: us), ok'. split.
+        -- rewrite E1. cbn [rev]. rewrite <- !app_assoc. reflexivity.
+        -- cbn [length]. lia.
+Qed.
+
+(* whenever uv_wtf8_length_as_utf16 accepts a string, uv_wtf8_to_utf16 stores
+   exactly the announced number of units *)
+Theorem wtf8_length_exact s n :
+  wtf8_length_as_utf16 s = Some n ->
+  N.of_nat (length (fst (wtf8_to_utf16 s))) = n.
+Proof.
+  unfold wtf8_length_as_utf16, wtf8_to_utf16. intros H.
+  destruct (wtf8_loops_agree (S (length s)) s 0 [] true n H) as (us & ok' & E1 & E2).
+  rewrite E1. cbn [fst rev app]. lia.
+Qed.
+
+(* The bounded-buffer route does not always report the exact length: when the
+   buffer ends inside the first character, target_len still holds the
+   capacity and the capacity is added to the length of the whole string. *)
+Theorem utf16_to_wtf8_enobufs_length_refuted :
+  exists w cap,
+    Forall nz16 w /\
+    utf16_length_as_wtf8 w (Z.of_nat (length w)) = 2 /\
+    utf16_to_wtf8 w (Z.of_nat (length w)) (TBuf cap) = (UV_ENOBUFS, [195; 0], 3).
+Proof.
+  exists [233], 1. split; [repeat constructor|]. split; vm_compute; reflexivity.
+Qed.
+
+(* assert(code_point < 0x10FFFF) in uv_wtf8_to_utf16 fails on the valid
+   code point U+10FFFF that uv_utf16_to_wtf8 produces from DBFF DFFF *)
+Theorem wtf8_to_utf16_assert_refuted :
+  exists w, Forall nz16 w /\
+    fst (fst (utf16_to_wtf8 w (Z.of_nat (length w)) (TAlloc true))) = 0%Z /\
+    snd (wtf8_to_utf16 (wtf8_of w)) = false.
+Proof.
+  exists [56319; 57343]. split; [repeat constructor|]. split; vm_compute; reflexivity.
+Qed.
+
+Example roundtrip_example :
+  let w := [65; 55357; 56489; 55296; 56320; 56320; 55296; 8364] in
+  Forall nz16 w /\ wtf8_of w = [65; 240; 159; 146; 169; 240; 144; 128; 128; 237; 176; 128; 237; 160; 128; 226; 130; 172].
+Proof. split; [repeat constructor|vm_compute; reflexivity]. Qed.
